@@ -587,7 +587,7 @@ func c05NeighbourHistory(c *Ctx) {
 func init() {
 	register(&Prop{
 		ID: "C05",
-		Rule: "suites = every advertised name, grammar-generated suite strings the parser accepts, and hand-built configurations (3 hashes x digits 4..10 x 32 field subsets x formats x password hashes x suite texts '', a name, 300 bytes) through NewSuite / bare SuiteConfig / RawSuite value; inputs admissible with boundary lengths (challenge min..128, session nil/0..128); each GenerateOCRA result compared with an independent RFC 6287 model, then repeated 3x with arbitrary content in unselected fields; one-goroutine histories: suite spellings, neighbouring keys, and inputs whose unpadded concatenation is the same byte string cut at other field boundaries (observed.recut_history_calls); " +
+		Rule: "suites = every advertised name, grammar-generated suite strings the parser accepts, and hand-built configurations (3 hashes x digits 4..10 x 32 field subsets x formats x password hashes x suite texts '', a name, 300 bytes) through NewSuite / bare SuiteConfig / RawSuite value; inputs admissible with boundary lengths (challenge min..128, session nil/0..128); each GenerateOCRA result compared with an independent RFC 6287 model, then repeated 3x with arbitrary content in unselected fields; one-goroutine histories: suite spellings, neighbouring keys, and inputs whose unpadded concatenation is the same byte string cut at other field boundaries or exchanged between fields (observed.recut_history_calls), and one set of caller-owned buffers rewritten in place between calls (observed.reused_buffer_history_calls); " +
 			"distinct_nontrivial counts distinct (key, route, suite, input) tuples whose exact code was compared",
 		Run: func(c *Ctx) {
 			c05EarlyHistories(c)
@@ -598,6 +598,7 @@ func init() {
 			runFmtStage(c, true, 4, c.N(20000, 1000000))
 			c05NeighbourHistory(c)
 			c05RecutHistory(c)
+			c05ReusedBuffers(c, false)
 		},
 		Replay: func(c *Ctx, kind string, raw json.RawMessage) error {
 			switch kind {
@@ -646,6 +647,21 @@ func recutInputs(s ref.Suite, base ref.Input) []ref.Input {
 	}
 	k, m := len(base.Challenge), len(base.Session)
 	var out []ref.Input
+	// the same byte strings sitting in other fields: challenge and session exchanged (inadmissible when the session is
+	// shorter than the challenge format's minimum - then generation and validation must both fail), counter and
+	// timestamp exchanged, both exchanges at once
+	{
+		x := base
+		x.Challenge, x.Session = base.Session, base.Challenge
+		out = append(out, x)
+		if s.C && s.T && string(base.Counter) != string(base.Timestamp) {
+			y := base
+			y.Counter, y.Timestamp = base.Timestamp, base.Counter
+			out = append(out, y)
+			x.Counter, x.Timestamp = base.Timestamp, base.Counter
+			out = append(out, x)
+		}
+	}
 	for _, k2 := range []int{min, min + 1, k - 1, k + 1, k - 8, k + 8, k + m, k + m - 1, (k + m) / 2, 128} {
 		m2 := k + m - k2
 		if k2 < min || k2 > 128 || m2 < 0 || m2 > 128 || k2 == k {
@@ -670,7 +686,7 @@ func recutInputs(s ref.Suite, base ref.Input) []ref.Input {
 	return out
 }
 
-var recutSuites = []string{"OCRA-1:HOTP-SHA1-6:QN08-S", "OCRA-1:HOTP-SHA1-6:QN08-S-T1M", "OCRA-1:HOTP-SHA256-8:C-QA10-PSHA1-S064", "OCRA-1:HOTP-SHA512-10:QH10-PSHA256-S-T2H", "OCRA-1:HOTP-SHA256-7:C-QN08-S128"}
+var recutSuites = []string{"OCRA-1:HOTP-SHA1-6:QN08-S", "OCRA-1:HOTP-SHA1-6:QN08-S-T1M", "OCRA-1:HOTP-SHA256-8:C-QA10-PSHA1-S064", "OCRA-1:HOTP-SHA512-10:QH10-PSHA256-S-T2H", "OCRA-1:HOTP-SHA256-7:C-QN08-S128", "OCRA-1:HOTP-SHA1-8:C-QN08-S-T30S", "OCRA-1:HOTP-SHA512-9:C-QA08-PSHA512-S256-T1H"}
 
 // c05RecutHistory: one goroutine, one secret and suite; base input, a re-cut of it, the base again (recutInputs).
 func c05RecutHistory(c *Ctx) {
@@ -699,6 +715,73 @@ func c05RecutHistory(c *Ctx) {
 				call(v)
 			}
 			call(base)
+		}
+	}
+}
+
+
+// c05ReusedBuffers: one goroutine, one secret and suite, and ONE set of caller-owned field buffers used for every call:
+// between two calls the caller overwrites the contents in place (same addresses, same lengths, other bytes), as a
+// server does that decodes every request into the same arena. Each result is compared with the reference code of the
+// bytes the buffers hold at the time of the call. Whatever recognises "the same input" by where it lives answers with
+// an earlier call's code.
+func c05ReusedBuffers(c *Ctx, validate bool) {
+	r := c.R
+	rng := c.RNG.Fork(514)
+	names := append([]string{"OCRA-1:HOTP-SHA1-6:QN08", "OCRA-1:HOTP-SHA256-8:C-QH10", "OCRA-1:HOTP-SHA512-8:QN08-T1M"}, recutSuites...)
+	for rep := 0; rep < c.N(3, 30); rep++ {
+		for _, name := range names {
+			m, ok := ref.ParseSuiteName(name)
+			if !ok {
+				continue
+			}
+			suite, err, pan := makeSuite(viaRaw, ref.Suite{Raw: name})
+			if err != nil || pan != nil || suite == nil {
+				continue
+			}
+			key := rng.Bytes(20)
+			secret := ref.Base32EncodeNoPad(key)
+			cur := admissibleInput(rng, m, 35)
+			oin := toOCRAInput(cur) // these slices are the caller's arena for the whole history
+			prev := ""
+			for step := 0; step < 7; step++ {
+				if step > 0 {
+					for _, f := range [][]byte{oin.Counter, oin.Challenge, oin.Password, oin.SessionInfo, oin.Timestamp} {
+						if step%3 == 1 && len(f) > 1 {
+							f[rng.Intn(len(f))] ^= byte(1 + rng.Intn(255)) // one byte changed
+						} else {
+							copy(f, rng.Bytes(len(f)))
+						}
+					}
+				}
+				now := ref.Input{Counter: append([]byte(nil), oin.Counter...), Challenge: append([]byte(nil), oin.Challenge...), Password: append([]byte(nil), oin.Password...), Session: append([]byte(nil), oin.SessionInfo...), Timestamp: append([]byte(nil), oin.Timestamp...)}
+				if cur.Session == nil {
+					now.Session = nil
+				}
+				want := ref.OCRA(key, m, now)
+				k := ocraCase{KeyHex: hexs(key), Secret: secret, Via: viaRaw, Suite: ref.Suite{Raw: name}, Input: inputToJ(now), Note: fmt.Sprintf("caller-owned buffers rewritten in place, call %d of the history", step+1)}
+				r.Eval(1)
+				r.Nontrivial("reuse|" + mustJSON(k))
+				r.Count("reused_buffer_history_calls", 1)
+				if !validate {
+					code, gerr, gpan := callGenerateOCRA(secret, suite, oin)
+					if gpan != nil || gerr != nil || code != want {
+						r.Violate("C05|GenerateOCRA|wrong-code|"+viaRaw+",buffers rewritten in place", "GenerateOCRA differs from the RFC 6287 value of the bytes its arguments hold now (the same buffers held other bytes in the previous call)", "ocra", k, want, fmt.Sprintf("%q err=%v panic=%v", code, gerr, gpan))
+					}
+					continue
+				}
+				ok1, err1, pan1 := callValidateOCRA(secret, want, suite, oin)
+				if pan1 != nil || !ok1 || err1 != nil {
+					r.Violate("C06|ValidateOCRA|rejects-generated-code|buffers rewritten in place", "ValidateOCRA rejects the code of the bytes its arguments hold now (the same buffers held other bytes in the previous call)", "ocrav", ocraVCase{Base: k, Submitted: hexAll([]string{want})}, "(true, nil)", fmt.Sprintf("(%v, %v) panic=%v", ok1, err1, pan1))
+				}
+				if prev != "" && prev != want {
+					ok2, err2, pan2 := callValidateOCRA(secret, prev, suite, oin)
+					if pan2 != nil || ok2 || err2 == nil {
+						r.Violate("C06|ValidateOCRA|accepts-other-string|buffers rewritten in place", "ValidateOCRA accepts the code of the bytes the same buffers held in the previous call", "ocrav", ocraVCase{Base: k, Submitted: hexAll([]string{prev})}, "(false, error)", fmt.Sprintf("(%v, %v) panic=%v", ok2, err2, pan2))
+					}
+				}
+				prev = want
+			}
 		}
 	}
 }
